@@ -65,8 +65,10 @@ def build(ub, algebra_text):
     ub.emit_fn(NODES, "new", "verify", impl="impl BVLitValue", spec_key="BVLitValue::new", cfg={"receivers": {}, "no_canary": True})
     ub.emit_raw("lemmas/context.rs", {"//@@GENERATED-LEMMAS@@": rd("lemmas/context_gen.rs")})
     ub.emit_fn(CTX, "add_expr", "verify", impl="impl Context", cfg={"receivers": {}, "replace": [["index.into()", "expr_ref_from_usize(index)"]]})
-    ub.emit_fn(TYPES, "get_bv_type", "stub", spec_key="ExprRef::get_bv_type")
-    ub.emit_fn(TYPES, "get_type", "stub", spec_key="ExprRef::get_type")
+    tcfg = {"receivers": {"ctx": "node"}, "no_canary": True}
+    ub.emit_fn(TYPES, "get_type", "verify", impl="impl TypeCheck for Expr", spec_key="Expr::get_type", cfg=dict(tcfg, split={"nth": 0, "on": "*self"}))
+    ub.emit_fn(TYPES, "get_type", "verify", impl="impl TypeCheck for ExprRef", spec_key="ExprRef::get_type", cfg=tcfg)
+    ub.emit_fn(TYPES, "get_bv_type", "verify", impl="trait TypeCheck", spec_key="ExprRef::get_bv_type", cfg=tcfg)
     for m in ("is_bit_vector", "is_array", "is_bool", "get_bit_vector_width", "get_array_data_width", "get_array_index_width"):
         ub.emit_fn(NODES, m, "verify", impl="impl Type", spec_key="Type::" + m, cfg={"receivers": {}, "no_canary": True})
     bcfg = {"receivers": {}}
@@ -74,4 +76,8 @@ def build(ub, algebra_text):
         ub.emit_fn(CTX, b, "verify", impl="impl Context", cfg=bcfg)
     ub.emit_fn(CTX, "bit_vec_val", "verify", impl="impl Context",
                cfg={"receivers": {}, "replace": [["value.try_into()", "try_into_u128(value)"], ["width.try_into()", "try_into_width(width)"]]})
+    ub.emit_fn(CTX, "default", "verify", impl="impl Default for Context", spec_key="Context::default",
+               cfg={"receivers": {}, "no_canary": True,
+                    "replace": [["strings: Default::default()", "strings: IndexSet::default()"], ["exprs: Default::default()", "exprs: IndexSet::default()"],
+                                ["values: Default::default()", "values: ValueInterner::default()"], ["0.into()", "expr_ref_from_usize(0)"]]})
     ub.out("} // verus!\nfn main() {}\n")
